@@ -243,7 +243,7 @@ class Ctx:
         elif self.broken:
             for b in self.broken:
                 print("note: coverage assertion failed (secondary to the violation): %s" % b)
-        if not self.replaying:
+        if not self.replaying and not getattr(self, "only", None):
             try:
                 import jsonschema
 
